@@ -25,7 +25,9 @@ RULE = ('random rank 1-3 float64/complex128 tensors (sizes 1-4) of dyadic ration
         'bracketing the 1e-8 switch (2^-27, 2^-26) for the fallback; corpus case = reproduction of the repaired KF-C08-1; an implementation-only '
         'family with irrational complex moduli (oracles, no model); a malformed stream (negative sigma / scale). Non-trivial = at least one element is actually thresholded/shrunk or reduced (numel > 1 and '
         'a non-zero sigma or a forward reduction); distinct by case hash.')
-TRUSTED_BASE = ['numpy reference formulas of the oracle (independent of the model)',
+TRUSTED_BASE = ['translator harness/translate/functionals.py (symbolic evaluation of the method bodies for fixed dtype flags -> Gallina over R; '
+                'torch.abs/sgn/relu/clamp_max/where/complex/.real/.imag mapped to Rabs/sgnR/reluR/Rmin/Rlt_dec/pairs; fail-closed per function)',
+                'numpy reference formulas of the oracle (independent of the model)',
                 'coherence Q twin <-> real model proved for the real primitives (soft-threshold, L1/L2 value/prox/conj prox) and for '
                 'the exact modulus; the Gaussian-rational tensor layer (broadcast, reduction, complex arithmetic) is tied to the '
                 'code by correspondence, not by a coherence theorem',
@@ -40,6 +42,41 @@ TINY = 2.0 ** -30          # < 1e-8, exactly representable in float32/float64
 CLASSES = ['L1Norm', 'L1NormViewAsReal', 'L2NormSquared', 'MSE', 'ZeroFunctional']
 KIND = {'L1Norm': 'KL1', 'L1NormViewAsReal': 'KL1R', 'L2NormSquared': 'KL2', 'MSE': 'KL2', 'ZeroFunctional': 'KZero'}
 PYTH = [(3, 4), (4, 3), (5, 12), (12, 5), (8, 15), (15, 8), (7, 24), (20, 21), (1, 0), (0, 1), (2, 0), (0, 3)]
+
+
+
+# ------------------------------------------------------------------------------------------------
+def translate(ctx):
+    """Regenerate Gen/functionals_gen.v from the current source of the functional classes and re-check the obligations
+    gen_<Class>_<method> = model function (fail-closed per function)."""
+    from translate import functionals
+    out = vlib.COQ / 'Gen' / 'functionals_gen.v'
+    out.parent.mkdir(exist_ok=True)
+    n, avail, unavailable = functionals.write(out)
+    ctx.extra.setdefault('coverage', {})['translator'] = {'obligations': n, 'translated': avail,
+                                                          'failed_closed': [f'{a}: {b}' for a, b in unavailable]}
+    for label, why in unavailable:
+        ctx.notes.append(f'translator failed closed for {label} ({why}); that function rests on correspondence alone in this run')
+    if n == 0:
+        return
+    ctx.obligations += n
+    rc, so, se = vlib.coqc_file(out)
+    if rc == 0:
+        ctx.discharged += n
+    else:
+        msg = (se or so)
+        import re
+        m = re.search(r'line (\d+)', msg)
+        where = ''
+        if m:
+            lines = out.read_text().splitlines()
+            ln = int(m.group(1))
+            for k in range(min(ln, len(lines)) - 1, -1, -1):
+                if lines[k].startswith('Lemma '):
+                    where = lines[k].split(':')[0].replace('Lemma ', '')
+                    break
+        ctx.problem('proof', 'gen_functionals', None,
+                    f'regenerated obligation {where} (current source == model of Model/Functionals.v) no longer proves: ' + msg[-500:])
 
 
 # ------------------------------------------------------------------------------------------------
